@@ -103,3 +103,29 @@ func verifHarness_C02_RetryOnLargest() {
 	rt.Assert(r.workers[0].desired != nil, "the small worker got the task")
 	r.drive(o, steps)
 }
+
+// The unlocked authorization window of WaitExecution / KillOperations: the
+// operation looked up before the window may have been removed (no-waiter
+// timeout) by the time the call re-takes the lock.
+func verifHarness_C02_ReattachDuringRemoval() {
+	rt.PreemptionBound(0)
+	steps := 3
+	if rt.Tier() > 0 {
+		steps = 5
+	}
+	rt.Bound("steps", steps)
+	rt.MustCover("auth:time-passed", "act:wait-execution", "stream:rejected")
+	r, o := vsC02Rig()
+	r.authRace = true
+	o.advances = []time.Duration{vsNoWaitersTimeout - time.Second}
+	o.maxAdvances = 1
+	// two clients share the task; the first one leaves
+	r.execute(r.clients[0])
+	r.execute(r.clients[1])
+	o.execs = []int{1, 1}
+	rt.Quiesce()
+	r.streams[0].ctx.cancel()
+	rt.Quiesce()
+	r.walk()
+	r.drive(o, steps)
+}
